@@ -50,7 +50,8 @@ def is_cands(e):
 # `candidates.first().ok_or(..)?` / `candidates[0]` with the others taken as `candidates.iter().skip(1)` /
 # `&candidates[1..]`; "no other candidate" is `tail.is_empty()` or `candidates.len() == 1 / < 2 / <= 1`.
 def _split(x):
-    return match(x, TryOk(Call("Option::ok_or", Call("[T]::split_first", is_cands, nargs=1))))
+    return match(x, TryOk(Call("Option::ok_or", Call("[T]::split_first", is_cands, nargs=1)))) or \
+        match(x, Field(Call("[T]::split_first", is_cands, nargs=1), 0, "Some"))          # `let Some((head, tail)) = c.split_first() else { return Err(..) }`
 
 
 def is_head_expr(x):
@@ -100,11 +101,59 @@ def single_candidate_cond(c):
     return None
 
 
+def ordering_tests_as_arms(paths):
+    """`if ord == Ordering::Less { .. } if ord == Ordering::Greater { .. }` tests the same discriminant a `match ord` tests:
+    conditions PartialEq::eq/ne(ord, <constant Ordering>) are rewritten to discr(ord) == k / not k, and the tests of one
+    ordering value on a path are replaced by the single value they leave (not Less and not Greater = Equal); a path whose
+    tests contradict each other is dropped"""
+    from .canon import ordering_const
+    from .sym import Path, strip_refs
+    out = []
+    for p in paths:
+        tests = {}
+        rest = []
+        for c in p.conds:
+            e = c[0]
+            hit = None
+            if e[0] == "call" and e[1] in ("std::cmp::PartialEq::eq", "std::cmp::PartialEq::ne") and len(e[3]) == 2 and "std::cmp::Ordering as" in (e[2] or ""):
+                x, y = strip_refs(e[3][0]), strip_refs(e[3][1])
+                for u, w in ((x, y), (y, x)):
+                    k = ordering_const(w)
+                    if k is not None and ordering_const(u) is None:
+                        truth = (c[1] != 0) if not isinstance(c[1], tuple) else True
+                        if e[1].endswith("::ne"):
+                            truth = not truth
+                        hit = (u, k, truth, c[2])
+                        break
+            if hit is None:
+                if e[0] == "discr" and callee_is(e[1], "Ord::cmp") and not isinstance(c[1], tuple):
+                    tests.setdefault(e[1], {"eq": set(), "ne": set(), "blk": c[2]})["eq"].add(-1 if c[1] in LESS else c[1])
+                    continue
+                rest.append(c)
+                continue
+            t = tests.setdefault(hit[0], {"eq": set(), "ne": set(), "blk": hit[3]})
+            (t["eq"] if hit[2] else t["ne"]).add(hit[1])
+        feasible = True
+        for u, t in tests.items():
+            left = ({-1, 0, 1} - t["ne"]) & (t["eq"] or {-1, 0, 1})
+            if len(t["eq"]) > 1 or not left:
+                feasible = False
+                break
+            if len(left) == 1:
+                v = next(iter(left))
+                rest.append((("discr", u), 255 if v == -1 else v, t["blk"]))
+            else:
+                rest.append((("discr", u), ("not", tuple(sorted(255 if x == -1 else x for x in t["ne"]))), t["blk"]))
+        if feasible:
+            out.append(Path(rest, p.events, p.ret, p.end, p.blocks, p.env, p.fieldenv))
+    return out
+
+
 def check(ctx):
     from .ctors import check_table
     check_table(ctx, "C08", "R08.6")
     fn = ctx.fn(FN)
-    paths = [p for p in ctx.paths(fn) if p.end != "unreachable"]
+    paths = ordering_tests_as_arms([p for p in ctx.paths(fn) if p.end != "unreachable"])
     at = fn.at()
 
     # ---- R08.1 ------------------------------------------------------------
@@ -182,14 +231,15 @@ def check(ctx):
                     pushed = c2[3][1]
                     ok = mentions(pushed, inner_next[0])
                     ctx.check(ok, "R08.2", "arm/%s/pushes-candidate" % name, "pushes " + short(pushed, 4), at)
-        other_calls = [c2 for c2 in after if not callee_is(c2, "Vec::clear", "Vec::push")]
+        other_calls = [c2 for c2 in after if not callee_is(c2, "Vec::clear", "Vec::push") and
+                       not (c2[1] in ("std::cmp::PartialEq::eq", "std::cmp::PartialEq::ne") and "std::cmp::Ordering as" in (c2[2] or ""))]     # tests of the ordering itself
         ctx.check(not other_calls, "R08.2", "arm/%s/no-other-effects" % name, "no other call between the comparison and the next candidate", at,
                   bad_detail="unexpected calls in the arm: " + ", ".join(short(c2, 3) for c2 in other_calls))
         # arm paths all go back to the inner loop header
         ctx.check(p.end.startswith("loop:"), "R08.2", "arm/%s/continues-inner-loop" % name, p.end, at)
 
     # best := this only on Greater (uses end-of-path environments)
-    envp = [p for p in walk(fn, ctx.F, keep_env=True) if p.end != "unreachable"]
+    envp = ordering_tests_as_arms([p for p in walk(fn, ctx.F, keep_env=True) if p.end != "unreachable"])
     by = {}
     for p in envp:
         cm = [c for c in p.conds if c[0][0] == "discr" and callee_is(c[0][1], "Ord::cmp")]
